@@ -17,6 +17,7 @@ package main
 
 import (
 	"fmt"
+	"os"
 	"strconv"
 	"strings"
 	"sync/atomic"
@@ -32,6 +33,10 @@ type Data struct {
 	Src    []byte `json:"src"`
 	Text   string `json:"text"`   // informational: %q of Src
 	Origin string `json:"origin"` // informational: how the generator derived Src
+	// history family (see history.go): process A then B under one filename,
+	// compare with B alone. Src is unused for these cases.
+	A *Item `json:"a,omitempty"`
+	B *Item `json:"b,omitempty"`
 }
 
 // counters: sharded so that 16 workers flushing ~30 keys per case do not
@@ -76,6 +81,9 @@ var documented = map[string]int{
 
 func judge(c engine.Case) engine.Outcome {
 	d := c.Data.(Data)
+	if d.A != nil && d.B != nil {
+		return judgeHistory(d)
+	}
 	r := &runner{src: d.Src, n: len(d.Src), cnt: map[string]int64{}}
 	r.runAll()
 	flushCounters(r.cnt)
@@ -98,6 +106,9 @@ func judge(c engine.Case) engine.Outcome {
 
 func shrink(c engine.Case) []engine.Case {
 	d := c.Data.(Data)
+	if d.A != nil {
+		return nil // an ordered pair of designed items is already minimal
+	}
 	var out []engine.Case
 	seen := map[string]bool{}
 	add := func(b []byte) {
@@ -131,17 +142,19 @@ func main() {
 	engine.Main(&engine.Check{
 		ID:        "C15",
 		Title:     "All front ends are total, deterministic and report well-formed diagnostics",
-		Technique: "bounded exhaustive enumeration of byte strings and of token-level edits of a generated valid corpus; invariants (totality, result shape, diagnostics well-formedness) plus a two-run determinism relation on every entry point",
+		Technique: "bounded exhaustive enumeration of byte strings, of token-level edits of a generated valid corpus and of all ordered pairs of a designed item set; invariants (totality, result shape, diagnostics well-formedness), a two-run determinism relation on every entry point and a history-independence relation (B after A == B alone)",
 		Rule: fmt.Sprintf("(a) all byte strings of length <= 3 (quick) / <= 4 (thorough) over a %d-byte alphabet mixing native-syntax and JSON bytes; "+
 			"(b) a generated corpus of valid native configs, expressions, templates and JSON documents with every single token-level edit: delete, duplicate, replace by / insert each of %d damage elements (brackets, quotes, template introducers and strip markers, heredoc opener/closer, keywords, operators, newline, 0xff, NUL); thorough adds every double edit of the entries with <= %d tokens (internal deadline). "+
-			"Every input goes to hclsyntax.LexConfig/LexExpression/LexTemplate/ParseConfig/ParseExpression/ParseTemplate/ParseTraversalAbs/ParseTraversalPartial, json.Parse/ParseExpression, hclwrite.ParseConfig/Format; bodies get %d schemas x Content/PartialContent/JustAttributes recursively; every reachable expression is evaluated in %d scopes. "+
+			"(c) history family: all ordered pairs (A,B) over %d designed items (JSON expressions/bodies, native configs/expressions/templates/traversals whose string templates yield diagnostics and variable traversals, placed after nothing / ASCII / multi-byte text on the same line, on other lines, twice in one input; the same bytes with other start positions; the same input with other scopes): A then B under one fresh filename, B's complete outcome (diagnostics, structure and ranges, Variables(), static analysis, value and diagnostics per scope, schema application) must equal B alone under another fresh filename and all its ranges must lie in B's input. "+
+			"Every input of (a),(b) goes to hclsyntax.LexConfig/LexExpression/LexTemplate/ParseConfig/ParseExpression/ParseTemplate/ParseTraversalAbs/ParseTraversalPartial, json.Parse/ParseExpression, hclwrite.ParseConfig/Format; bodies get %d schemas x Content/PartialContent/JustAttributes recursively; every reachable expression is evaluated in %d scopes. "+
 			"Distinct = distinct vectors of per-entry-point outcomes (accepted / number of diagnostics and first summary, result shape, value in the typical scope).",
-			len(alphabet), len(damage), doubleEditMaxTokens, len(schemas), len(ctxs)),
+			len(alphabet), len(damage), doubleEditMaxTokens, len(historyItems()), len(schemas), len(ctxs)),
 		Assumptions: []string{
 			"hclsyntax.LexConfig/LexTemplate on the VALID corpus text only defines the edit positions of the generator (it is not part of the oracle)",
 			"encoding/json.Valid is trusted as the recogniser of 'this text is not JSON' for the unusable-result clause of the JSON entry points",
 			"go-cty values, marks and stdlib functions (upper, length, join, min, concat) are trusted",
 			"diagnostics whose order derives from Go map iteration (schema application) are compared as sorted multisets",
+			"history family: the library is assumed to hold no hidden state keyed by anything but filename, start position and content (each run uses a fresh filename and a fresh identifier, so concurrently judged pairs cannot disturb each other)",
 		},
 		Gen:    gen,
 		Judge:  judge,
@@ -153,6 +166,10 @@ func main() {
 				m[k] = v
 			}
 			m["corpus_entries"] = len(corpus())
+			m["history_items"] = len(historyItems())
+			if f := os.Getenv("C15_ONLY"); f != "" {
+				m["development_filter_only_family"] = f
+			}
 			m["corpus_entries_not_valid_for_their_kind"] = invalidCorpusEntries()
 			m["damage_alphabet"] = len(damage)
 			m["byte_alphabet"] = len(alphabet)
